@@ -85,6 +85,16 @@ def roundtrip(ctx, g, top, mname, want=None, variables=None, clause='encode-deco
     ok, s = ctx.call(penman.format, tree, indent=indent, clause=clause + ':format')
     if not ok:
         return None
+    if ctx.evaluations % 16 == 0:
+        # other ways to say the same thing: the codec, the module-level function, positional
+        # arguments, the existing top given explicitly
+        codec = penman.PENMANCodec(model=model)
+        ok1, s1 = ctx.call(codec.encode, g, eff_top, indent, clause=clause + ':codec.encode(positional)')
+        ok2, s2 = ctx.call(penman.encode, g, top=top, model=model, indent=indent, clause=clause + ':penman.encode')
+        if ok1 and ok2 and not (s1 == s2 == s):
+            ctx.fail(clause + ':argument-forms-disagree', detail={'triples': g.triples, 'top': top,
+                                                                   'a': s[:300], 'b': s1[:300], 'c': s2[:300]},
+                     payload=payload)
     ok, d = ctx.call(penman.decode, s, model=model, clause=clause + ':decode')
     if not ok:
         return None
